@@ -118,6 +118,21 @@ def plan(tier, seed):
     return cases
 
 
+def execute_twins(case):
+    """a 1.1 and a 1.5 image whose line records are equally long (544 + 8 P11 == 192 + 2 P15) parsed in one process, both orders"""
+    fails = []
+    order = [("1.1", case["P11"]), ("1.5", 176 + 4 * case["P11"])]
+    if case["reverse"]:
+        order.reverse()
+    for level, P in order:
+        out = treecheck.check_spec(treecheck.spec_from_case({"spec": {"level": level, "images": [["HH", None, case["L"], P]]}}), only=["/imagery"], open_kw={"records_per_chunk": case["rpc"]})
+        for f in out["failures"][:3]:
+            f["detail"] = f"{level} {case['L']}x{P} rpc={case['rpc']} parsed {'after' if (level, P) == order[1] else 'before'} its twin of equal record length: {f['detail']}"
+            f["case"] = {**case, "fn": "execute_twins"}
+            fails.append(f)
+    return {"ok": not fails, "failures": fails, "outcome": "twins-ok" if not fails else "twins-mismatch", "nontrivial": True, "unverified": []}
+
+
 def execute(case):
     spec = treecheck.spec_from_case(case)
     kw = dict(case.get("kw") or {})
@@ -140,11 +155,14 @@ def run(res, tier, seed):
         "both record types; baselines L=1..3; every prefix field x {0,1,mid,max,high bit | every enum code | flag 0,1,2} on one"
         " line (quick) / each line (thorough), per-file constants on all lines; (year,day,ms) over 3 years x days"
         " {1,59,60,61,365,366} x ms {0,1,86399999}; us {0,1,86399999999}; 5 optional header fields x {blank,0,value,full width};"
-        " neighbour pairs full width (thorough); images of 260..2100 lines (more than one metadata request at the default rpc, hundreds of small ones); four-image products (two scans x two polarisations, four polarisations) uncached, while writing the index cache and through it; 24-line piecewise-constant and 4200-line images with extreme values, uncached and through the cache. Every case is a distinct product compared on all /imagery leaves."
+        " neighbour pairs full width (thorough); images of 260..2100 lines (more than one metadata request at the default rpc, hundreds of small ones); four-image products (two scans x two polarisations, four polarisations) uncached, while writing the index cache and through it; 24-line piecewise-constant and 4200-line images with extreme values, uncached and through the cache; pairs of a 1.1 and a 1.5 image with equal record length parsed in one process in both orders. Every case is a distinct product compared on all /imagery leaves."
     )
     res.assumptions = ["per-file constants are constant over the lines of a file (the property calls them constants)", "a blank interleaving id may surface as absent or as '' (C03 and C20 word it differently)"]
     unv = set()
     for idx, case, out in core.pool_map(__name__, "execute", plan(tier, seed), chunksize=4):
         res.record(case, out, order=idx)
         unv.update(out["unverified"])
+    twins = [{"L": L, "rpc": rpc, "P11": p11, "reverse": rev} for L in (2, 5) for rpc in (1, 2, 1024) for p11 in (1, 3) for rev in (False, True)]
+    for idx, case, out in core.pool_map(__name__, "execute_twins", twins, chunksize=2):
+        res.record({**case, "fn": "execute_twins"}, out, order=10**6 + idx)
     res.extra["unverified_leaves"] = sorted(unv)[:50]
